@@ -44,12 +44,13 @@ def isZero (m : Mat) : Bool := m.all (·.all Poly.isZero)
 /-- structural equality of normal forms -/
 def eq (a b : Mat) : Bool := a == b
 
-/-- `a` and `b` are linearly dependent: every 2×2 minor of the pair of flattened
-    vectors vanishes. -/
+/-- `a` and `b` have the same row shapes and are linearly dependent: every 2×2 minor of the
+    pair of flattened vectors vanishes (soundness: `Proof/MatSound.propTo_sound`). -/
 def propTo (a b : Mat) : Bool :=
   let fa := flat a
   let fb := flat b
   let pairs := List.zip fa fb
+  a.map List.length == b.map List.length &&
   fa.length == fb.length &&
   pairs.all fun (x1, y1) => pairs.all fun (x2, y2) =>
     Poly.mul x1 y2 == Poly.mul x2 y1
